@@ -423,6 +423,13 @@ Definition count_edge (e : dedge) (fs : list face) : nat :=
   length (filter (dedge_eqb e) (flat_map edges fs)).
 Definition swap (e : dedge) : dedge := (snd e, fst e).
 
+(* edge-manifold boundary: no directed edge of the surface is used twice (false
+   e.g. for two cells that touch along an edge only) *)
+Definition edge_manifold_faces (fs : list face) : bool :=
+  forallb (fun e => Nat.leb (count_edge e fs) 1) (flat_map edges fs).
+
+Definition edge_manifold (m : mesh) : bool := edge_manifold_faces (surface_sorted m).
+
 (* directed index edges of a face table *)
 Definition iedges (f : list nat) : list (nat * nat) :=
   match f with [] => [] | a :: r => combine f (r ++ [a]) end.
